@@ -5,6 +5,7 @@ import (
 	"encoding/json"
 	"fmt"
 	"os"
+	"regexp"
 	"strings"
 
 	"github.com/regclient/regclient/types/ref"
@@ -119,6 +120,9 @@ func genStr(r *lib.Rand) string {
 	}
 }
 
+// hostShape: labels of letters, digits and inner hyphens joined by dots, optionally a port - what only a host name can be
+var hostShape = regexp.MustCompile(`^[A-Za-z0-9]([A-Za-z0-9-]*[A-Za-z0-9])?(\.[A-Za-z0-9]([A-Za-z0-9-]*[A-Za-z0-9])?)*(:[0-9]+)?$`)
+
 func sameComponents(a, b ref.Ref) bool {
 	return a.Scheme == b.Scheme && a.Registry == b.Registry && a.Repository == b.Repository && a.Tag == b.Tag && a.Digest == b.Digest && a.Path == b.Path
 }
@@ -149,6 +153,21 @@ func runCaseRaw(c Case, res *lib.Result) string {
 			sch := c.Str[:i]
 			if sch != r0.Scheme || (sch != "reg" && sch != "ocidir" && sch != "ocifile") {
 				res.Fail("accepted-malformed-scheme", fmt.Sprintf("New(%q) was accepted with scheme %q although the text spells scheme %q", c.Str, r0.Scheme, sch), c)
+			}
+		}
+		// oracle: a first component that can only be a host name (it contains '.' or ':') is the registry, not reinterpreted
+		if r0.Scheme == "reg" && !strings.Contains(c.Str, "://") {
+			if i := strings.IndexByte(c.Str, '/'); i > 0 {
+				c0 := c.Str[:i]
+				if strings.ContainsAny(c0, ".:") && hostShape.MatchString(c0) {
+					want := c0
+					if c0 == "index.docker.io" || c0 == "registry-1.docker.io" {
+						want = "docker.io"
+					}
+					if r0.Registry != want {
+						res.Fail("registry-reinterpreted", fmt.Sprintf("New(%q) names registry %q in its first component but was accepted with registry %q, repository %q", c.Str, c0, r0.Registry, r0.Repository), c)
+					}
+				}
 			}
 		}
 		// oracle: accepted references obey the grammar's rejections
